@@ -70,13 +70,13 @@ def main():
         elif x == "--seconds-scale": scale = float(a.pop(0))
         elif x == "--tag": tag = a.pop(0)
     items = []
+    for d in sorted(glob.glob(os.path.join(ROOT, "seeded/*/patch.diff"))):
+        name = os.path.basename(os.path.dirname(d))
+        items.append(("seeded:" + name, name.split("-")[0], d))
     for f in sorted(glob.glob(os.path.join(ROOT, "mutants/*.diff"))):
         name = os.path.basename(f)[:-5]
         pre = re.split(r"[-_]", name)[0]
         for pid in PREFIX_PROPS.get(pre, []): items.append(("own:" + name, pid, f))
-    for d in sorted(glob.glob(os.path.join(ROOT, "seeded/*/patch.diff"))):
-        name = os.path.basename(os.path.dirname(d))
-        items.append(("seeded:" + name, name.split("-")[0], d))
     outp = os.path.join(ROOT, "reports/sensitivity.tsv")
     done = set()
     if os.path.exists(outp):
